@@ -14,6 +14,15 @@ sender under test against the MIU the *other* one announced in its general bytes
 
 Frames that carry a PDU submitted through a raw access point socket of the sender are exempt from the size
 rules (the property says so), not from transparency.
+
+Profile `vack` aims at the last stage of collect(): 2..6 data link connections of the sender (receive window
+2..15) have received I PDUs the application has read, so that sendack() owes a *voluntary* RR/RNR on each, and a
+leading UI/I PDU of Link MIU-60..Link MIU octets (swept octet by octet over consecutive rounds of one history)
+leaves every possible remainder of room in front of the acknowledgement loop; necessary acknowledgements
+(window exhausted), RNR (receive-busy), DM and SNL answers are mixed in.  The verdict is still the wire monitor's
+(information field against the announced Link MIU); a harness side wrapper of DataLinkConnection.sendack() and a
+look at the sender's connection state only feed the coverage counters (which leaf PDUs were voluntary
+acknowledgements, how many were still owed, how much room the acknowledgement loop found).
 """
 import random
 import struct
@@ -39,10 +48,15 @@ ASSUMPTIONS = ["vf.ref.llcp_ref and the 10-line aggregate splitter in this modul
                "link turns alternate strictly (A,B,A,B) as NFC-DEP forces them to; an idle side sends SYMM"]
 REQUIRED = ["frames_checked", "agf_frames", "transparency_compared", "pdu_len_contract", "snl_gt30_answers",
             "frames_at_exact_miu_lone", "frames_at_exact_miu_agf", "rr_in_agf", "dm_in_agf", "i_payload_checked",
-            "ui_payload_checked", "miu_not_multiple_of_4_checked"]
+            "ui_payload_checked", "miu_not_multiple_of_4_checked",
+            # profile vack: the acknowledgement loop of collect() was reached in the deciding situations
+            "agf_2plus_vack_behind_other", "frames_at_exact_miu_agf_with_vack", "vack_loop_stopped_free_4",
+            "agf_vack_with_other_ack", "agf_vack_with_dm_or_snl"] + ["vack_room_%02d" % _r for _r in range(13)]
 
 SPECIAL = (list(range(128, 141)) + list(range(247, 261)) + list(range(1000, 1004)) + list(range(2170, 2176)))
 PROFILES = ["sd", "edge", "mix", "mix"]
+VACK_REPS = {"quick": 12, "thorough": 3}       # histories of profile vack per target Link MIU
+VACK_SWEEP = 61                                # leading PDU sizes Link MIU-60 .. Link MIU
 
 
 # ---------------------------------------------------------------------------------------------
@@ -57,11 +71,14 @@ def plan(tier, seed):
         targets = list(range(128, 2176))
         reps = 16
         tmo = 3000
+    vreps = VACK_REPS[tier if tier in VACK_REPS else "thorough"]
     jobs = []
     for r in range(reps):
         for t in targets:
             for agf in (1, 0):
                 jobs.append([t, agf, PROFILES[(r + agf) % len(PROFILES)]])
+            if r < vreps:
+                jobs.append([t, 1, "vack"])       # voluntary acknowledgements exist with aggregation only
     return [{"jobs": jobs[i::n], "timeout": tmo} for i in range(n)]
 
 
@@ -145,6 +162,26 @@ def _patch_enqueue():
     _ENQ_PATCHED.append(True)
 
 
+_VACKS = []                # PDU objects DataLinkConnection.sendack() returned during the current link turn
+_VACK_PATCHED = []
+
+
+def _patch_sendack():
+    """remember which PDU objects are voluntary acknowledgements (coverage counters only, never a verdict)"""
+    if _VACK_PATCHED:
+        return
+    import nfc.llcp.tco as T
+    orig = T.DataLinkConnection.sendack
+
+    def sendack(self, _orig=orig):
+        p = _orig(self)
+        if p is not None:
+            _VACKS.append(p)
+        return p
+    T.DataLinkConnection.sendack = sendack
+    _VACK_PATCHED.append(True)
+
+
 class Monitor:
     def __init__(self, R, lp, case):
         from vf.core import nfcpdu
@@ -167,6 +204,7 @@ class Monitor:
         self.cur_leaf = None
         self.enq_for_leaf = 0
         _patch_enqueue()
+        _patch_sendack()
         for end in ("A", "B"):
             self._wrap_dispatch(end)
         lp.observers.append(self.on_frame)
@@ -343,6 +381,75 @@ class Monitor:
                             self.case)
         self.last = (rcv, wire, top)
         self.tops.append(top)
+        if not exempt and self.agf[snd]:
+            self.vack_stats(snd, p, leaves, ld, top, info, link)
+
+    # -- coverage of the voluntary acknowledgement stage (counters only) ------------------------
+    def vack_owed(self, end):
+        """SAP addresses of `end` where sendack() would return an acknowledgement now (tco.py: ESTABLISHED,
+        receive confirmations outstanding, V(R) != V(RA)); state inspection for coverage counters only"""
+        import nfc.llcp.tco as T
+        out = []
+        for addr, sap in enumerate(self.lp.llc(end).sap):
+            for s in getattr(sap, "sock_list", ()):
+                if (isinstance(s, T.DataLinkConnection) and s.state.ESTABLISHED and s.recv_confs
+                        and s.recv_cnt != s.recv_ack):
+                    out.append(addr)
+                    break
+        return out
+
+    def vack_stats(self, snd, p, leaves, ld, top, info, link):
+        """called after the sender's collect(): which leaves are voluntary acknowledgements (objects returned by
+        sendack() in this turn), how many are still owed, how much room the acknowledgement loop found"""
+        R = self.R
+        objs = self.flat(p)
+        if len(objs) != len(leaves):
+            return
+        isv = [any(o is v for v in _VACKS) for o in objs]
+        nv = sum(isv)
+        owed_after = self.vack_owed(snd)
+        if nv + len(owed_after) == 0:
+            return
+        others = [k for k, v in enumerate(isv) if not v]
+        behind = bool(others) and nv > 0 and others[0] == 0
+        free_end = link - info if top == "AGF" else link - (2 + len(leaves[0]))
+        R.count("vack_pdus", nv)
+        if nv:
+            R.count("frames_with_vack")
+            R.max("vacks_per_frame", nv)
+            R.count("vack_rnr", sum(1 for k, v in enumerate(isv) if v and ld[k]["t"] == "RNR"))
+        if top == "AGF" and nv:
+            R.count("agf_with_vack")
+            if behind:
+                R.count("agf_vack_behind_other")
+            if nv >= 2 and behind:
+                R.count("agf_2plus_vack_behind_other")
+            if info == link:
+                R.count("frames_at_exact_miu_agf_with_vack")
+            kinds = set(ld[k]["t"] for k in others)
+            if kinds & {"RR", "RNR"}:
+                R.count("agf_vack_with_other_ack")          # necessary or busy-change acknowledgement
+            if kinds & {"DM", "SNL"}:
+                R.count("agf_vack_with_dm_or_snl")
+            if kinds & {"I"}:
+                R.count("agf_vack_with_i")
+            if kinds & {"UI"}:
+                R.count("agf_vack_with_ui")
+        # room the acknowledgement loop found: octets left for the information field of a PDU with a 3 octet header
+        # once everything else was collected, in a turn where at least two acknowledgements were owed
+        if others and nv + len(owed_after) >= 2:
+            room = link - sum(2 + len(leaves[k]) for k in others) - 5
+            R.seen("vack_rooms", max(-20, min(room, 80)))
+            R.count("vack_room_%02d" % room if 0 <= room <= 12 else "vack_room_neg" if room < 0 else "vack_room_gt12")
+            R.max("vack_owed_with_other_pdus", nv + len(owed_after))
+        # the loop ended because the frame was full although an access point further on still owes one
+        last = max([ld[k]["ssap"] for k, v in enumerate(isv) if v] or [-1])
+        further = [a for a in owed_after if a > last]
+        if further and others and free_end < 5:
+            if nv:
+                R.count("vack_loop_stopped_free_%d" % max(free_end, -1))
+            else:
+                R.count("vack_loop_not_entered_free_%d" % max(free_end, -1))
 
     def report_link(self, direction, enc, d, top, info, link):
         sig = "link-miu/" + (describe(d) if top != "AGF" else "AGF")
@@ -383,6 +490,7 @@ class Monitor:
     def turn(self, src):
         rcv = "B" if src == "A" else "A"
         self.active, self.rx, self.last = rcv, [], None
+        del _VACKS[:]
         try:
             p = self.lp.turn(src)
         except Exception as e:
@@ -579,6 +687,14 @@ class History:
                         break
                     self.api(s.recv)
                     R.count("messages_received")
+        elif k == "recvn":
+            _, end, i, n = o
+            s = self.pick(end, ("dlc",), i)
+            for _ in range(n if s is not None else 0):
+                if not self.api(s.poll, "recv", 0):
+                    break
+                self.api(s.recv)
+                R.count("messages_received")
         elif k == "snl":
             _, end, n, lmin, lmax, sd = o
             r = random.Random(sd)
@@ -746,10 +862,111 @@ def some_miu(rng):
     return rng.choice([128, 2175, 2175, rng.choice(SPECIAL), rng.randrange(128, 2176)])
 
 
+def gen_vack(rng, case):
+    """A owes voluntary acknowledgements on n = 2..6 connections while a leading PDU nearly fills the frame.
+
+    One history is a run of consecutive rounds; round r uses a leading PDU of Link MIU - x octets with x stepping by
+    one through 0..60 (start and direction drawn), so that whatever else is due in the same turn (acknowledgements
+    with 5 octets, DM with 5, SNL answers, a second data PDU) every remainder of room is met.  Per round: B sends
+    1..RW I PDUs on some connections, the link turns until they arrived, A's application reads all or some of them
+    (read and window not exhausted: voluntary acknowledgement owed; window exhausted: necessary acknowledgement),
+    optionally DM/SNL/RNR/second data PDU become due at A, A queues the leading PDU, one link turn."""
+    link = case["miu_b"]
+    case["agf_b"] = 1 if rng.random() < 0.75 else 0
+    n = rng.randrange(2, 7)
+    setup, ops = [], []
+    setup.append(["ldl", "B"])                       # SAP 32 of B: destination of A's UI PDUs
+    a_ldl_first = rng.random() < 0.5                 # below or above A's client connection SAPs in collect() order
+    if a_ldl_first:
+        setup.append(["ldl", "A"])
+    rws = []
+    for i in range(n):
+        rw = rng.choice([2, 2, 3, 4, 15, rng.randrange(2, 16)])
+        amiu = some_miu(rng)
+        bmiu = rng.choice([2175, link, link, some_miu(rng)])
+        brw = rng.choice([1, 2, 15, rng.randrange(1, 16)])
+        rws.append(rw)
+        if rng.random() < 0.5:
+            setup.append(["conn", "A", 63 - i, amiu, rw, bmiu, brw])
+        else:
+            setup.append(["conn", "B", 63 - i, bmiu, brw, amiu, rw])
+    lead_conn = None
+    if rng.random() < 0.6:                           # a connection of its own for a leading I PDU
+        lead_conn = n
+        st = ["conn", rng.choice("AB"), 63 - n, some_miu(rng), 15, rng.choice([2175, link]), 15]
+        if st[1] == "B":
+            st[3], st[5] = st[5], st[3]
+        setup.append(st)
+    if not a_ldl_first:
+        setup.append(["ldl", "A"])
+    if rng.random() < 0.7:
+        setup.append(["idle", "A"])
+    case["setup"] = setup
+    x = rng.randrange(VACK_SWEEP)
+    step = rng.choice([1, 1, -1])
+    for _ in range(rng.randrange(10, 22)):
+        # -- B -> A data
+        if rng.random() < 0.6:
+            conns = list(range(n))
+        else:
+            conns = rng.sample(range(n), rng.randrange(2, n + 1))
+        total = 0
+        for j in conns:
+            k = rng.choice([1, 1, 1, 2, 2, rws[j] - 1, rws[j], rng.randrange(1, rws[j] + 1)])
+            k = min(k, 5)
+            total += k
+            for _ in range(k):
+                ops.append(["send", "B", j, ["abs", rng.randrange(1, 24)]])
+        ops.append(["pump", 1 + (total // 3 if case["agf_b"] else total)])
+        # -- A's application reads
+        if rng.random() < 0.65:
+            ops.append(["drain", "A"])
+        else:
+            for j in conns:
+                ops.append(["recvn", "A", j, rng.choice([1, 1, 2, 15])])
+        # -- other things due at A in the same turn
+        c = rng.random()
+        if c < 0.18:
+            for _ in range(rng.randrange(1, 4)):
+                ops.append(["cinj", "A", ["sock", ["ldl", "idle"], rng.randrange(3)],
+                            (44, 45, 46, 47, 48, 49, 51, 52, 53, 54, 55, 56)[len(ops) % 12], some_miu(rng),
+                            rng.randrange(16), None])
+        elif c < 0.30:
+            ops.append(["cinj", "A", ["sap", rng.choice([1, rng.randrange(2, 31)])],
+                        (44, 45, 46, 47, 48, 49, 51, 52, 53, 54, 55, 56)[len(ops) % 12], some_miu(rng),
+                        rng.randrange(16), None])
+        elif c < 0.42:
+            lmin = rng.choice([1, 1, 5])
+            ops.append(["snl", "A", rng.randrange(1, 6), lmin, max(lmin, rng.choice([lmin, 4, 12])),
+                        rng.randrange(1 << 20)])
+        elif c < 0.50:
+            ops.append(["bsy", "A", rng.randrange(n), rng.randrange(2)])
+        elif c < 0.60:
+            ops.append(rng.choice([["send", "A", rng.randrange(n + 1), ["abs", rng.randrange(0, 12)]],
+                                   ["sendto", "A", 0, 32, ["abs", rng.randrange(0, 12)]]]))
+        # -- the leading PDU: Link MIU - x octets of data (the socket's own limit may be lower)
+        big = ["abs", link - x]
+        c = rng.random()
+        if c < 0.45:
+            ops.append(["sendto", "A", 0, 32, big])
+        elif c < 0.85 and lead_conn is not None:
+            ops.append(["send", "A", lead_conn, big])
+        else:
+            ops.append(["send", "A", rng.randrange(n), big])      # piggybacks that connection's acknowledgement
+        ops.append(["pump", 1])
+        if rng.random() < 0.8:
+            ops.append(["drain", "B"])
+        x = (x + step) % VACK_SWEEP
+    case["ops"] = ops
+    return case
+
+
 def gen_case(rng, miu_b, agf_a, profile):
     """A is the sender this job aims at: B announces miu_b, A aggregates or not; B->A is monitored all the same"""
     case = {"miu_a": rng.choice([2175, 2175, 248, rng.choice(SPECIAL), rng.randrange(128, 2176)]), "miu_b": miu_b,
             "agf_a": agf_a, "agf_b": rng.randrange(2), "rseed": rng.randrange(1 << 30), "profile": profile}
+    if profile == "vack":
+        return gen_vack(rng, case)
     setup, ops = [], []
     ends = ("A", "B")
     nconn = {"sd": rng.choice([0, 0, 1]), "edge": rng.choice([1, 2, 3]), "mix": rng.choice([0, 1, 2, 4, 6])}[profile]
